@@ -243,6 +243,22 @@ def check_tr2rpy(run, words, rule='R19'):
             run.error('R19: tr2rpy[%s]: singular/general if-else not found' % label)
             continue
         sing, gen = top[0].body, top[0].orelse
+        # ---- the singularity test itself: |R[a,b]| = 1 for the entry that composes to +-sin(pitch)
+        gt = canon(fi, top[0].test, inline=False)
+        bg = matches('abs(abs(_R[_A, _B]) - 1) < _T', gt) or matches('abs(1 - abs(_R[_A, _B])) < _T', gt) or matches('isclose(abs(_R[_A, _B]), 1, *_X)', gt)
+        if bg is not None and isinstance(bg['_A'], ast.Constant) and isinstance(bg['_B'], ast.Constant):
+            a_, b_ = bg['_A'].value, bg['_B'].value
+            ent_ = M[a_][b_]
+            sa_ = ent_.single_atom()
+            n += 1
+            if sa_ is not None and sa_[1] == 's1':
+                run.holds(rule, f.key, '%s: singularity test' % label, '|R[%d,%d]| = |sin(pitch)| = 1' % (a_, b_), f=f, node=top[0])
+            else:
+                run.violation(rule, f.key, '%s: singularity test' % label, 'the singular branch is entered when |R[%d,%d]| = 1, but with the writer %s that entry composes '
+                              'to %s, not to +-sin(pitch): the gimbal-lock case is not detected (and ordinary poses with that entry at +-1 take the '
+                              'singular formulas)' % (a_, b_, _w(word), ent_), f=f, node=top[0])
+        else:
+            run.error('R19: tr2rpy[%s]: singularity test %s is not of the form abs(abs(R[a,b]) - 1) < tol' % (label, src(top[0].test, 40)))
         try:
             # ---- general branch
             rd = Reader(M, 'rpy')
@@ -533,3 +549,57 @@ def slot_paths(fi, fnode, arr, start_after=None):
 
     walk(body_nodoc(fnode), {}, {}, [])
     return out
+
+
+def check_pivot_tables(run, key='base/transforms3d:tr2rpy', rule='R19'):
+    """Pivot selection: `k = argmax(abs([e0, e1, e2, e3]))` followed by a chain `k == i: x = atan(num / den_i)` picks, among
+    equivalent formulas, the one with the largest denominator.  Each branch i must divide by exactly the i-th candidate of the list:
+    otherwise the branch chosen because e_i is large divides by another entry, which may be (nearly) zero."""
+    from ..callgraph import own_walk
+    f = run.prog.func(key)
+    fi = FuncInfo.of(f)
+    n = 0
+
+    def blocks(node):
+        for fld in ('body', 'orelse', 'finalbody'):
+            v = getattr(node, fld, None)
+            if isinstance(v, list) and v and isinstance(v[0], ast.stmt):
+                yield v
+                for st in v:
+                    if not isinstance(st, (ast.FunctionDef, ast.ClassDef)):
+                        yield from blocks(st)
+    for blk in blocks(f.node):
+        for i, st in enumerate(blk):
+            if not (isinstance(st, ast.Assign) and len(st.targets) == 1 and isinstance(st.targets[0], ast.Name)):
+                continue
+            b = matches('argmax(abs(_L))', canon(fi, st.value, inline=False))
+            if b is None or not isinstance(b['_L'], (ast.List, ast.Tuple)):
+                continue
+            kname = st.targets[0].id
+            cands = [canon(fi, x, inline=False) for x in b['_L'].elts]
+            chain = blk[i + 1] if i + 1 < len(blk) and isinstance(blk[i + 1], ast.If) else None
+            if chain is None:
+                continue
+            arms, els = if_chain(chain)
+            for (t, body) in arms:
+                bb = matches('%s == _I' % kname, t)
+                if bb is None or not isinstance(bb['_I'], ast.Constant) or not isinstance(bb['_I'].value, int):
+                    continue
+                idx = bb['_I'].value
+                divs = [d for s_ in body for d in ast.walk(s_) if isinstance(d, ast.BinOp) and isinstance(d.op, ast.Div)]
+                n += 1
+                construct = 'pivot branch %s == %d' % (kname, idx)
+                if idx >= len(cands):
+                    run.violation(rule, f.key, construct, 'the candidate list has %d entries: no branch index %d' % (len(cands), idx), f=f, node=t)
+                    continue
+                want = ast.dump(cands[idx])
+                dens = [canon(fi, d.right, inline=False) for d in divs]
+                if any(ast.dump(d) == want for d in dens):
+                    run.holds(rule, f.key, construct, 'divides by candidate %d of the pivot list (%s)' % (idx, src(cands[idx], 20)), f=f, node=t, nontrivial=True)
+                elif dens:
+                    run.violation(rule, f.key, construct, 'the branch selected because candidate %d = %s has the largest magnitude divides by %s: the pivot '
+                                  'list and the formulas disagree, so the formula used may divide by a (nearly) vanishing entry' % (
+                                      idx, src(cands[idx], 20), src(dens[0], 20)), f=f, node=t)
+    if n < 12:
+        run.error('R19: %s: only %d pivot branches found (expected 12)' % (key, n))
+    return n
